@@ -374,7 +374,20 @@ def run(ctx, config='rel-all'):
             except IndexError:
                 okv = False
         check('retain', 'the guard restores len := idx - del_bytes (also when the predicate panics)', okv, '', gd[0].get('span'))
-    ctx.floor('O4', n4[0], 27, 'byte-shift formula clauses')
+    b = string_method(db, 'into_bump_str')
+    if b:
+        I, r = arena.run_fn(ctx, b['id'], config)
+        fg = own_calls(r, 'mem::forget')
+        vecp = ('app', 'proj', SELF, 'collections::string::String.vec')
+        okv = r.ret is not None and r.ret[0] == 'agg' and r.ret[1] == 'slice' and field_of(r.ret, 'ptr') == ('app', 'proj', ('app', 'proj', vecp, 'collections::vec::Vec.buf'), 'collections::raw_vec::RawVec.ptr') \
+            and field_of(r.ret, 'len') == ('app', 'proj', vecp, 'collections::vec::Vec.len') and len(fg) == 1 and fg[0].args[0] == SELF
+        drops = [e for e in r.events if e.kind == 'drop' and len(e.stack) == 1 and not b['blocks'][e.block].get('cleanup')]
+        check('into_bump_str', 'returns the whole text (buf.ptr, len) and forgets the string: the buffer is never handed back to the arena', okv and not drops, '', b.get('span'))
+    b = string_method(db, 'into_bytes')
+    if b:
+        I, r = arena.run_fn(ctx, b['id'], config)
+        check('into_bytes', 'returns the byte vector itself', r.ret == ('app', 'proj', SELF, 'collections::string::String.vec'), '', b.get('span'))
+    ctx.floor('O4', n4[0], 29, 'byte-shift formula clauses')
     # ---- R6 comparison / hashing / formatting / indexing / borrow impls hand the whole text to the str impl; R7 compositions
     from . import forwarding, glue
     forwarding.check(ctx, config, 'R6', 'string::String', 29)
